@@ -196,11 +196,12 @@ Proof.
   destruct Io as [->|Io]; [contradiction|].
   destruct (linked_bounds f _ off W Io) as (A1 & A2 & A3 & _).
   pose proof (walked2_count _ _ _ _ _ _ W Wk) as Cn.
-  destruct ((t_map t / UNIT <? n) || (off <? H + c_hashOff) || (t_map t <? off + 16)) eqn:G.
+  destruct ((t_map t / UNIT <? n) || (off <? H + c_hashOff) || negb (off mod 8 =? 0) || (t_map t <? off + 16)) eqn:G.
   - apply look_fail_tinv2; auto.
-    apply orb_true_iff in G. destruct G as [G|G]; [apply orb_true_iff in G; destruct G as [G|G]|].
+    repeat (apply orb_true_iff in G; destruct G as [G|G]).
     + apply N.ltb_lt in G. unfold UNIT, c_recordUnit in G. lia.
     + apply N.ltb_lt in G. unfold_consts. lia.
+    + apply negb_true_iff in G. apply N.eqb_neq in G. exfalso. apply G. clear - A1. nlia.
     + apply N.ltb_lt in G. lia.
   - apply orb_false_iff in G. destruct G as [_ G]. apply N.ltb_ge in G.
     split; [exact R|]. unfold pc_inv2; cbn. splits; auto.
@@ -212,7 +213,7 @@ Lemma dwalk_tinv2 : forall f t off n, wf_shared f -> res_ok t ->
 Proof.
   intros f t off n W R Wk. unfold FileConc.dwalk.
   destruct (off =? t_oldh t); [split; [exact R|exact I]|].
-  destruct ((off <? H + c_hashOff) || (t_map t <? off + 16)) eqn:G.
+  destruct ((off <? H + c_hashOff) || negb (off mod 8 =? 0) || (t_map t <? off + 16)) eqn:G.
   - apply ret_fail_tinv2; [exact R|reflexivity].
   - apply orb_false_iff in G. destruct G as [_ G]. apply N.ltb_ge in G.
     split; [exact R|]. unfold pc_inv2; cbn. splits; auto.
